@@ -220,3 +220,105 @@ Example C01_example_oversized_frame_wraps :
   new_frame c_MaxFrameSize false = Some (mkShape 65551 16 65535 0 16 false) /\
   SetPayloadSize (wrapU 16 65535) = 15.
 Proof. exact oversized_frame_wraps. Qed.
+
+(* ---- the io.Writer / io.Reader contract of the argument streams (Model/FragIO.v, Proofs/FragIOP.v,
+   Proofs/FragIOGenP.v) ----
+   "Any sequence of write sizes" is experienced by the caller through what Write RETURNS: a caller
+   that honours io.Writer (io.Copy, bufio.Writer, http.WriteRequest, a loop p = p[n:]) decides from the
+   returned count which bytes are part of the argument.  Model/FragIO.v adds the returned values to the
+   writer and reader models, keeping the count the way the Go loops keep it (a running total). *)
+From Verif Require Import Gen.GenFragIO Model.FragIO Proofs.FragIOP Proofs.FragIOGenP.
+
+(* WRITER with its returned values, all scripts: for every capacity function, checksum and three
+   arguments written with ANY sequence of write sizes (each below 2^63 bytes, as every Go slice) and
+   flushes: no panic; EVERY Write(p) returns (len(p), nil) -- whether it fits, spills into one more
+   fragment or spans any number of fragments -- and every other operation returns nil; the counts
+   returned for the Writes of an argument add up to the length of the argument that the emitted
+   fragments denote; codes and final state are those of the run of C01_writer *)
+Theorem C01_write_returns : forall (capf : bool -> Z) ck a1 a2 a3,
+  3 <= capf true -> 5 <= capf false ->
+  small_writes a1 -> small_writes a2 -> small_writes a3 ->
+  exists r1 st1 r2 st2 r3 st3,
+    w_run_n capf (arg_ops false a1) (w_init ck) = Some (r1, st1) /\
+    w_run_n capf (arg_ops false a2) st1 = Some (r2, st2) /\
+    w_run_n capf (arg_ops true a3) st2 = Some (r3, st3) /\
+    Forall2 ret_ok (arg_ops false a1) r1 /\ Forall2 ret_ok (arg_ops false a2) r2 /\ Forall2 ret_ok (arg_ops true a3) r3 /\
+    returned r1 = zlen (arg_bytes a1) /\ returned r2 = zlen (arg_bytes a2) /\ returned r3 = zlen (arg_bytes a3) /\
+    denote (chunks_of (ws_out st3)) = [arg_bytes a1; arg_bytes a2; arg_bytes a3] /\
+    map zlen (denote (chunks_of (ws_out st3))) = [returned r1; returned r2; returned r3] /\
+    w_run capf (script3 a1 a2 a3) (w_init ck) [] = Some (map snd (r1 ++ r2 ++ r3), st3).
+Proof. exact io_writer. Qed.
+
+(* ONE Write in any state in which an argument is open (whatever room the current fragment has
+   left, whatever was written before): n = len(p), nil, and the state is the one of Model/Frag.v *)
+Theorem C01_write_once : forall (capf : bool -> Z) st p,
+  3 <= capf false -> zlen p < int_max -> ws_err st = 0 -> is_writing (ws_state st) = true ->
+  exists st', w_write capf p st = Some (0, st') /\ w_write_n capf p st = Some (zlen p, 0, st').
+Proof. exact io_write_once. Qed.
+
+(* a caller that re-offers what a short count leaves (`n, err := w.Write(p); p = p[n:]`) makes exactly
+   ONE call: what it transmits is what it meant to send *)
+Theorem C01_resend_loop_once : forall (capf : bool -> Z) st p fuel,
+  3 <= capf false -> zlen p < int_max -> ws_err st = 0 -> is_writing (ws_state st) = true -> p <> [] ->
+  exists st', w_write capf p st = Some (0, st') /\ w_send_all capf (S fuel) p st 0 = Some (1, 0, st').
+Proof. exact io_send_all_once. Qed.
+
+(* READER with its returned count: Read(buf) returns the bytes, code and state of Model/Frag.v (to
+   which C01_reader_eof / C01_exact_read apply: the bytes are the NEXT bytes of the argument) and
+   n = the number of bytes delivered; never more than len(buf); len(buf) exactly iff the error is nil
+   (a short read always comes with io.EOF or an error) *)
+Theorem C01_read_returns : forall n st, 0 <= n < int_max ->
+  r_read_n n st = match r_read n st with None => None | Some (bs, c, st1) => Some (zlen bs, bs, c, st1) end /\
+  forall bs c st1, r_read n st = Some (bs, c, st1) ->
+    zlen bs <= n /\ (c = 0 -> zlen bs = n) /\ (c <> 0 -> zlen bs < n \/ n = 0).
+Proof. exact io_read. Qed.
+
+(* tie to the source: ONE ITERATION of the loop of fragmentingWriter.Write, regenerated from
+   fragmenting_writer.go on this run, accumulates the count before anything is returned, returns
+   (total, nil) when the rest of the slice fit, (total, err) when Flush failed, and otherwise goes on
+   with exactly the written bytes dropped from the front of the slice ... *)
+Theorem C01_write_iteration_generated : forall fits flush_err total b,
+  fragWriteIter fits flush_err total b =
+  let '(ret, total', b') := wr_iter (fits b) total b in
+  if ret then (1, (total', 0), total', b)
+  else if negb (flush_err =? 0) then (1, (total', flush_err), total', b)
+  else (0, (0, 0), total', b').
+Proof. exact write_iter_generated. Qed.
+
+(* ... and the loop of the writer model is the repetition of that generated iteration *)
+Theorem C01_write_loop_generated : forall capf fuel b st t,
+  w_write_loop_n capf (S fuel) b st t =
+  let '(how, r, t', b') := fragWriteIter (w_fits st) 0 t b in
+  if how =? 1 then (fst r, w_put st b)
+  else w_write_loop_n capf fuel b' (w_flush_raw capf (w_put st b)) t'.
+Proof. exact write_loop_generated. Qed.
+
+(* the same for one iteration of the loop of fragmentingReader.Read (fragmenting_reader.go) *)
+Theorem C01_read_iteration_generated : forall cur rem more recv_err total b,
+  fragReadIter cur rem more recv_err total b =
+  let '(n, total', b', cur') := rd_iter cur total b in
+  if b' =? 0 then (1, (total', 0), total', b', cur')
+  else if rem >? 0 then (1, (total', 12), total', b', cur')
+  else if negb more then (1, (total', 12), total', b', cur')
+  else if negb (recv_err =? 0) then (1, (total', recv_err), total', b', cur')
+  else (0, (0, 0), total', b', cur').
+Proof. exact read_iter_generated. Qed.
+
+Print Assumptions C01_write_returns.
+Print Assumptions C01_write_once.
+Print Assumptions C01_resend_loop_once.
+Print Assumptions C01_read_returns.
+Print Assumptions C01_write_iteration_generated.
+Print Assumptions C01_write_loop_generated.
+Print Assumptions C01_read_iteration_generated.
+
+(* non-vacuity: 10-byte fragments (8 data bytes each): single Writes of 8, 9, 17, 33 and 40 bytes --
+   fitting, and crossing 1, 2, 4 and 4 fragment boundaries -- return (len, nil) *)
+Example C01_example_write_spans :
+  let capf := fun _ : bool => 10 in
+  let st0 := match w_begin capf false (w_init (mkCk 0 0)) with Some (_, s) => s | None => w_init (mkCk 0 0) end in
+  map (fun k => match w_write_n capf (repeat 7 k) st0 with
+                | Some (n, c, st) => (n, c, Z.of_nat (length (ws_out st)))
+                | None => (-1, -1, -1) end) [8%nat; 9%nat; 17%nat; 33%nat; 40%nat]
+  = [(8, 0, 0); (9, 0, 1); (17, 0, 2); (33, 0, 4); (40, 0, 4)].
+Proof. exact io_write_spans. Qed.
